@@ -139,6 +139,20 @@ func (e *SpecEnv) eval(ex ast.Expr) Value {
 	switch n := ex.(type) {
 	case *ast.ParenExpr:
 		return e.eval(n.X)
+	case *ast.TypeAssertExpr:
+		// x.(*T): the value of interface x viewed as *T (the tag is asserted separately with typeis)
+		v := e.eval(n.X)
+		if iv, ok := v.(IfaceV); ok {
+			if st, ok := n.Type.(*ast.StarExpr); ok {
+				if id, ok := st.X.(*ast.Ident); ok {
+					if t := x.P.LookupType(id.Name); t != nil {
+						return Scalar{T: iv.Val, Ty: types.NewPointer(t)}
+					}
+				}
+			}
+		}
+		e.errorf("unsupported type assertion in contract")
+		return UnknownV{}
 	case *ast.BasicLit:
 		switch n.Kind {
 		case token.INT, token.FLOAT, token.CHAR:
@@ -377,22 +391,28 @@ func (x *Exec) loadFieldQuiet(st *State, owner, fname string, ty types.Type, obj
 
 // quietTypeInv assumes the (state-independent) type invariants of a value read in a contract expression.
 func (x *Exec) quietTypeInv(v Value, st *State) {
+	// The value may have been stored on one path only (e.g. s = s[1:] under a bounds check): its invariants hold
+	// under the guard of the state it is read from, not unconditionally.
+	guard := True
+	if st != nil && st.G != nil {
+		guard = st.G
+	}
 	if sc, ok := v.(Scalar); ok && sc.T.S == IntS && sc.T.Op != "lit" && st != nil && st.Next != nil {
 		if op, _ := isOpaque(sc.Ty); op {
 			return
 		}
-		k := sc.T.String() + "|" + st.Next.String()
+		k := sc.T.String() + "|" + st.Next.String() + "|" + guard.String()
 		if x.quietInv == nil {
 			x.quietInv = map[string]bool{}
 		}
 		if !x.quietInv[k] {
 			x.quietInv[k] = true
-			x.assumeRef(sc.T, True, st)
+			x.assumeRef(sc.T, guard, st)
 		}
 		return
 	}
 	if sl, ok := v.(SliceV); ok {
-		k := sl.Len.String() + "|" + sl.Arr.String()
+		k := sl.Len.String() + "|" + sl.Arr.String() + "|" + guard.String()
 		if st != nil && st.Next != nil {
 			k += "|" + st.Next.String()
 		}
@@ -406,7 +426,7 @@ func (x *Exec) quietTypeInv(v Value, st *State) {
 			return
 		}
 		x.quietInv[k] = true
-		x.assumeTypeInv(v, True, st)
+		x.assumeTypeInv(v, guard, st)
 	}
 }
 
@@ -777,6 +797,17 @@ func (e *SpecEnv) evalCall(n *ast.CallExpr) Value {
 			return Scalar{T: v.Arr, Ty: nil}
 		}
 		e.errorf("arr of non-slice")
+		return UnknownV{}
+	case "typeis":
+		// typeis(x, T): the dynamic type of interface x is *T
+		if iv, ok := argv(0).(IfaceV); ok {
+			if id, ok := n.Args[1].(*ast.Ident); ok {
+				if t := x.P.LookupType(id.Name); t != nil {
+					return Scalar{T: Eq(iv.Tag, x.typeTag(types.NewPointer(t))), Ty: tyBool}
+				}
+			}
+		}
+		e.errorf("typeis: interface value and type name expected")
 		return UnknownV{}
 	case "errarr":
 		// errarr(e): backing array of the text of an error made by errors.New (0 when unknown to the ghost state)
